@@ -108,6 +108,8 @@ fn main() {
         "c04" => integrity::c04_cases(&mut rng, &tier, &mut out),
         "c07" => confid::c07_cases(&mut rng, &tier, &mut out),
         "c07-child" => confid::child(),
+        #[cfg(feature = "scaled")]
+        "c07-model" => confid::c07_model_cases(&mut rng, &tier, &mut out),
         "c08" => fuzz::c08_cases(&mut rng, &tier, &mut out),
         "c08-child" => {
             let num = |n: &str| arg(&args, n).and_then(|s| s.parse::<usize>().ok()).unwrap_or(0);
